@@ -262,6 +262,10 @@ type runner struct {
 // normal duration of a case; 0 = no in-worker detection, the pool's stall
 // detector applies).
 func newRunner(w *vf.Worker, asGiB uint64, spin time.Duration) *runner {
+	// enumerated programs may contain redirects to relative names (tee > "a"i, $*): keep such files out of /verif
+	if os.MkdirAll("/dev/shm/verif-c18-cwd", 0755) == nil {
+		os.Chdir("/dev/shm/verif-c18-cwd")
+	}
 	verifrt.TrapExits(true)
 	vf.CaptureStderr()
 	var lim syscall.Rlimit
